@@ -35,6 +35,10 @@ def cases(tier):
                 if route in ('cls', 'wp') and sp == 'DLPOLY':
                     continue
                 out.append(dict(route=route, cutoff=6.5 if n % 2 else 10.0, nr=n, pots=[['A', 'B', 'buck']], spelling=sp, reject=True))
+    # a function that is not a number beyond some separation (e.g. sqrt(1 - (r/rc)^2) in the formula language): the table says so, it does not invent zeros
+    for route in ('cls', 'wp'):
+        for nr in (8, 16, 40):
+            out.append(dict(route=route, cutoff=2.0, nr=nr, pots=[['A', 'B', 'nan-beyond-1.1']], spelling='DL_POLY', nan=True))
     # the rule does not depend on what is tabulated: an empty potential list
     for n in (5, 6, 7, 9, 10, 11):
         for route in ('cls', 'wp'):
@@ -123,7 +127,43 @@ def check_table(case, t):
     return viol
 
 
+def run_nan(case):
+    import atsim.potentials as ap
+    import math
+    from atsim.potentials.pair_tabulation import DLPoly_PairTabulation
+    rc = 1.1
+
+    def f(r):
+        return 2.0 * math.exp(-r) if r <= rc else float('nan')
+    f.deriv = lambda r: -2.0 * math.exp(-r) if r <= rc else float('nan')
+    fp = io.StringIO()
+    pots = [ap.Potential('A', 'B', f)]
+    if case['route'] == 'cls':
+        DLPoly_PairTabulation(pots, case['cutoff'], case['nr']).write(fp)
+    else:
+        ap.writePotentials('DL_POLY', pots, case['cutoff'], case['nr'], fp)
+    viol = []
+    toks = fp.getvalue().split('\n', 3)[3].split()
+    nr = case['nr']
+    delpot = case['cutoff'] / (nr - 4.0)
+    if len(toks) != 2 * nr:
+        V(viol, 'format-error', 'expected %d values, found %d' % (2 * nr, len(toks)))
+        return dict(outcome='violation', nontrivial=True, evals=1, violations=viol)
+    for k in range(1, nr + 1):
+        r = k * delpot
+        for which, tok, want in (('energy', toks[k - 1], f(r)), ('force', toks[nr + k - 1], -r * f.deriv(r))):
+            got = float(tok)
+            if abs(r - rc) < 1e-9:
+                continue
+            if math.isnan(want) != math.isnan(got) or (not math.isnan(want) and abs(got - want) > 1e-6 * (abs(want) + 1e-3)):
+                V(viol, 'not-a-number-%s' % which, 'k=%d r=%r: %s field %r, the function gives %r' % (k, r, which, tok, want))
+                return dict(outcome='violation', nontrivial=True, evals=k, violations=viol)
+    return dict(outcome='ok:nan', nontrivial=True, evals=2 * nr, violations=viol)
+
+
 def run_case(case):
+    if case.get('nan'):
+        return run_nan(case)
     if case.get('reject'):
         return run_reject(case)
     text = PK.produce(case, 'DL_POLY', ini_target=case['spelling'])
